@@ -68,6 +68,7 @@ CONFIGS = {
     ],
 }
 PATH_CAP = 60
+NEAR_BUDGET = 200      # nodes expanded when looking for the nearest uncovered edge before starting a new path
 VARIANT_PATHS = 25      # per one-client Redis configuration: paths replayed again on Redis 5 and with cache_size 0
 THREADED_PATHS = 10     # per configuration: paths replayed with the real listener thread of store.py
 
@@ -199,7 +200,7 @@ def edge_cover(init, adj, budget, rng, cap=PATH_CAP):
             if d >= limit:
                 continue
             visited += 1
-            if visited > 3000:
+            if visited > NEAR_BUDGET:
                 return None
             for ei, (_, y) in enumerate(adj[x]):
                 if y not in seen:
@@ -504,12 +505,54 @@ def lab_text(lab):
     return "%s(%s)" % (op, ",".join(args))
 
 
+GRAPH = {}          # adjacency and labels, set before the workers are forked (inherited copy-on-write)
+
+
+def work(job):
+    """One configuration, in a forked child: edge cover of its component, replay into the real stores,
+    observations straight into ndjson part files."""
+    ci, cfg, init, tier, workdir, seed = job
+    adj, labels = GRAPH["adj"], GRAPH["labels"]
+    rng = random.Random(seed * 7919 + 20 + ci)
+    name = cfg["name"]
+    ta = time.time()
+    paths, ncov, targets, nstates, nedges = edge_cover(init, adj, cfg["budget"], rng)
+    t_cover = time.time() - ta
+    tb = time.time()
+    sink = Sink(workdir, "%s-%s" % (tier, name), parts=4, base=(ci + 1) * 10 ** 7)
+    real = Real(cfg, workdir)
+    P = P_of(cfg)
+    nops, nvariant, sample, variant_ids = 0, 0, None, {}
+    for pi, p in enumerate(paths):
+        labs = [labels[adj[u][ei][0]] for (u, ei) in p]
+        row = {"type": "path", "P": P, "cfg": name, "ops": real.replay(labs, threaded=pi < THREADED_PATHS)}
+        sink.add(row)
+        nops += len(labs)
+        if pi == 0:
+            sample = row
+    # the same operations where the cache is out of use: a server without client tracking (Redis 5) and
+    # cache_size 0 -- get_cached_view must then simply answer from the server
+    if cfg["kind"] == "redis" and cfg["nclients"] == 1:
+        for vname, vcfg, ver in (("redis5", cfg, "5.0.7"), ("cache-off", dict(cfg, cap=0), "6.2.0")):
+            vreal = Real(vcfg, workdir, version=ver)
+            for p in paths[:VARIANT_PATHS]:
+                labs = [labels[adj[u][ei][0]] for (u, ei) in p]
+                rid = sink.add({"type": "path", "P": P_of(vcfg), "cfg": name + "/" + vname, "version": ver,
+                                "ops": vreal.replay(labs, threaded=False)})
+                variant_ids[rid] = dict(vcfg, version=ver, name=name + "/" + vname)
+                nvariant += len(labs)
+    files = sink.close()
+    return {"name": name, "files": files, "sample": sample, "variant_ids": variant_ids, "nvariant": nvariant,
+            "t_cover": t_cover, "t_replay": time.time() - tb,
+            "info": {"states": nstates, "transitions": nedges, "paths": len(paths), "operations": nops,
+                     "edges_covered": ncov, "edge_coverage": round(ncov / max(nedges, 1), 4), "target_edges": targets}}
+
+
 def run(tier_name=None, replay=None):
     t = get_tier(tier_name)
     v = Verdict("C20", t)
     workdir = os.path.join(RUN, "C20-" + t)
     os.makedirs(workdir, exist_ok=True)
-    rng = random.Random(get_seed() * 7919 + 20)
 
     if replay:
         rp = json.load(open(replay))
@@ -525,7 +568,7 @@ def run(tier_name=None, replay=None):
             sink = Sink(os.path.join(RUN, "C20-replay"), "replay", parts=1)
             for r in rows:
                 sink.add(r)
-            fails, stats = sink.judge()
+            fails, stats = judge_files(sink.close())
         except Exception as ex:
             v.machinery_failure(str(ex)[:1500])
             return v.finish()
@@ -541,10 +584,6 @@ def run(tier_name=None, replay=None):
     # -- the model: one TLC run, every kind ------------------------------------------------------
     m = run_model(configs, workdir, 8)
     t_model = time.time() - t0
-    sink = Sink(workdir, t)
-    meta, nvariant, sample_rows = {}, [0], []
-    cover_info = {}
-    t_cover = t_replay = 0.0
     if not m["ok"]:
         v.machinery_failure("MC_Store: TLC did not complete cleanly -- a clause of spec/Store.tla fails in the model "
                             "or TLC broke: %s" % m["tail"][-1500:])
@@ -560,40 +599,31 @@ def run(tier_name=None, replay=None):
     finally:
         if os.path.exists(m["dot"]):
             os.remove(m["dot"])
-    t_cover += time.time() - ta
-    for ci, cfg in enumerate(configs):
-        name = cfg["name"]
-        ta = time.time()
-        paths, ncov, targets, nstates, nedges = edge_cover(inits[ci + 1], adj, cfg["budget"], rng)
-        t_cover += time.time() - ta
-        tb = time.time()
-        real = Real(cfg, workdir)
-        P = P_of(cfg)
-        nops = 0
-        for pi, p in enumerate(paths):
-            labs = [labels[adj[u][ei][0]] for (u, ei) in p]
-            row = {"type": "path", "P": P, "ops": real.replay(labs, threaded=pi < THREADED_PATHS)}
-            meta[sink.add(row)] = (cfg, labs)
-            nops += len(labs)
-            if pi == 0 and len(sample_rows) < 3:
-                sample_rows.append(row)
-        t_replay += time.time() - tb
-        # the same operations where the cache is out of use: a server without client tracking (Redis 5) and
-        # cache_size 0 -- get_cached_view must then simply answer from the server
-        if cfg["kind"] == "redis" and cfg["nclients"] == 1:
-            for vname, vcfg, ver in (("redis5", cfg, "5.0.7"), ("cache-off", dict(cfg, cap=0), "6.2.0")):
-                vreal = Real(vcfg, workdir, version=ver)
-                for p in paths[:VARIANT_PATHS]:
-                    labs = [labels[adj[u][ei][0]] for (u, ei) in p]
-                    rid = sink.add({"type": "path", "P": P_of(vcfg), "ops": vreal.replay(labs, threaded=False)})
-                    meta[rid] = (dict(vcfg, version=ver, name=name + "/" + vname), labs)
-                    nvariant[0] += len(labs)
-        cover_info[name] = {"states": nstates, "transitions": nedges, "paths": len(paths),
-                            "operations": nops, "edges_covered": ncov, "edge_coverage": round(ncov / max(nedges, 1), 4),
-                            "target_edges": targets}
+    t_parse = time.time() - ta
+    # -- edge cover and replay: one forked worker per configuration -------------------------------
+    tb = time.time()
+    GRAPH["adj"], GRAPH["labels"] = adj, labels
+    jobs = [(ci, cfg, inits[ci + 1], t, workdir, get_seed()) for ci, cfg in enumerate(configs)]
+    try:
+        import multiprocessing
+        with multiprocessing.get_context("fork").Pool(processes=min(len(jobs), 10)) as pool:
+            results = pool.map(work, jobs, chunksize=1)
+    except Exception as ex:
+        import traceback
+        v.machinery_failure("replay worker failed: %r %s" % (ex, traceback.format_exc()[-1200:]))
+        return v.finish()
+    finally:
+        GRAPH.clear()
+    del adj
+    t_workers = time.time() - tb
+    cover_info = {r["name"]: r["info"] for r in results}
+    files = [f for r in results for f in r["files"]]
+    variant_ids = {}
+    for r in results:
+        variant_ids.update(r["variant_ids"])
+    nvariant = sum(r["nvariant"] for r in results)
     if sum(c["states"] for c in cover_info.values()) != m["states"]:
         v.machinery_failure("the graph dump has %d states, TLC reported %d" % (sum(c["states"] for c in cover_info.values()), m["states"]))
-    del adj
     # -- outside the graph ---------------------------------------------------------------------------
     extra = badfile_cases(workdir)
     try:
@@ -601,18 +631,18 @@ def run(tier_name=None, replay=None):
         extra.append(engine_ttl_case(45))
     except Exception as ex:
         v.machinery_failure("engine run on the simulated Redis failed: %r" % (ex,))
-    for o in extra:
-        meta[sink.add(o)] = (None, o)
+    sink = Sink(workdir, t + "-extra", parts=1, base=0)
+    extra_ids = {sink.add(o): o for o in extra}
+    files += sink.close()
     # -- judge ---------------------------------------------------------------------------------------
     tc = time.time()
     try:
-        fails, stats = sink.judge()
+        fails, stats = judge_files(files, keep_failing=True)
     except Exception as ex:
         v.machinery_failure(str(ex)[:1500])
         return v.finish()
     t_judge = time.time() - tc
-    # on the variants (no tracking at all) the model's in-flight queues are not comparable
-    stats["drift"] = sum(1 for i in stats["drift_ids"] if meta[i][0] is not None and "version" not in meta[i][0])
+    by_name = {c["name"]: c for c in configs}
     cl = collections.Counter()
     seen_paths = set()
     for f in fails:
@@ -620,47 +650,55 @@ def run(tier_name=None, replay=None):
         if f["kf"]:
             v.known_finding(f["kf"])
             continue
-        cfg, x = meta[f["id"]]
         if f["id"] in seen_paths or len(seen_paths) >= 40:
             continue
         seen_paths.add(f["id"])
-        if cfg is None:
+        if f["id"] in extra_ids:
+            x = extra_ids[f["id"]]
             v.violation(dict(x, property="C20"), "%s: %s" % (f["clause"], json.dumps({k: x[k] for k in x if k not in ("P", "id")})[:200]))
-        else:
-            labs = x[:f["step"]]
-            seen_op = Real(cfg, workdir, version=cfg.get("version", "6.2.0")).replay(labs)[-1]      # deterministic: run it again
-            text = " ; ".join(lab_text(l) for l in labs)
-            v.violation({"property": "C20", "type": "path", "cfg": cfg, "labels": [list(l) for l in labs], "text": text,
-                         "clause": f["clause"], "observed": seen_op},
-                        "%s [%s] after %s -> %s" % (f["clause"], cfg["name"], text[-160:], json.dumps(seen_op["out"])[:120]))
+            continue
+        row = f.get("row")
+        if row is None:                 # beyond the first failing cases of its part file: counted only
+            continue
+        cfg = variant_ids.get(f["id"]) or by_name[row["cfg"]]
+        labs = [(o["op"], o["c"], o["k"], o["f"], o["v"]) for o in row["ops"][:f["step"]]]
+        seen_op = row["ops"][f["step"] - 1]
+        text = " ; ".join(lab_text(l) for l in labs)
+        v.violation({"property": "C20", "type": "path", "cfg": cfg, "labels": [list(l) for l in labs], "text": text,
+                     "clause": f["clause"], "observed": seen_op},
+                    "%s [%s] after %s -> %s" % (f["clause"], cfg["name"], text[-160:], json.dumps(seen_op["out"])[:120]))
+    drift = sum(1 for i in stats["drift_ids"] if i not in variant_ids and i not in extra_ids)
     nops = sum(c["operations"] for c in cover_info.values())
     npaths = sum(c["paths"] for c in cover_info.values())
     tot_edges = sum(c["transitions"] for c in cover_info.values())
     cov_edges = sum(c["edges_covered"] for c in cover_info.values())
+    sample_rows = [r["sample"] for r in results if r["sample"]][:3]
     v.coverage = {
-        "states": sum(c["states"] for c in cover_info.values()) + stats["states"],
+        "states": m["states"] + stats["states"],
         "transitions": tot_edges + stats["transitions"],
         "model": cover_info,
-        "traces_validated_against_impl": npaths, "evaluations": nops + nvariant[0] + len(extra),
-        "variant_operations": nvariant[0],
+        "traces_validated_against_impl": npaths, "evaluations": nops + nvariant + len(extra),
+        "variant_operations": nvariant,
         "edge_coverage": round(cov_edges / max(tot_edges, 1), 4), "edges_covered": cov_edges, "edges_total": tot_edges,
         "distinct_nontrivial": cov_edges,
-        "rule": "distinct (model state, operation with its arguments) pairs of MC_Store's state graphs that were driven through the real "
+        "rule": "distinct (model state, operation with its arguments) pairs of MC_Store's state graph that were driven through the real "
                 "store classes (an edge walked twice counts once); the whole graph when no edge budget applies, otherwise a sample "
                 "of the edges seeded by VERIF_SEED plus whatever lies on the way",
         "exhaustive": all(c["budget"] == 0 for c in configs) and cov_edges == tot_edges,
-        "drift_paths": stats.get("drift", 0),
+        "drift_paths": drift,
         "failed_clauses": {"%s|%s" % k: c for k, c in cl.items()},
         "outside_graph": [{k: o[k] for k in o if k not in ("P", "id")} for o in extra],
         "samples": [{"P": r["P"], "ops": [lab_text((o["op"], o["c"], o["k"], o["f"], o["v"])) + " -> " + json.dumps(tagged.dec(o["out"]["val"]) if o["out"]["kind"] != "exc" else o["out"]["cls"])
                                          for o in r["ops"][:12]]} for r in sample_rows],
         "tlc_model": {"distinct_states": m["states"], "states_generated": m["generated"], "wall_s": m["wall"]},
-        "timings_s": {"model": round(t_model, 1), "cover": round(t_cover, 1), "replay": round(t_replay, 1), "judge": round(t_judge, 1)},
+        "timings_s": {"model": round(t_model, 1), "parse_dump": round(t_parse, 1), "cover_and_replay_wall": round(t_workers, 1),
+                      "cover_cpu": round(sum(r["t_cover"] for r in results), 1), "replay_cpu": round(sum(r["t_replay"] for r in results), 1),
+                      "judge": round(t_judge, 1)},
         "tlc_cpu_s": stats["tlc_cpu_s"],
     }
-    if stats.get("drift", 0):
+    if drift:
         print("DRIFT property=C20 %d path(s) where the invalidations in flight differ from the model's "
-              "(no clause failed because of that; see evidence)" % stats["drift"])
+              "(no clause failed because of that; see evidence)" % drift)
     v.assumptions = [
         "lib/vsim/fakeredis.py is Redis and pottery as far as store.py can tell (its assumptions A1-A8: RESP2 tracking with redirect, "
         "reads of missing keys are remembered, one invalidation per remembered key and modification, views without local copy)",
@@ -668,29 +706,29 @@ def run(tier_name=None, replay=None):
         "a member update through the view of a file store is not written through; Reopen is not explored while one is pending (statement silent)",
         "two JSONStore objects over one file do not share state (single-instance store by its documentation): file and in-memory kinds have one client",
         "open: cache eviction order (only the bound is demanded), KeyError or silence when deleting an absent key",
-        "thread interleavings of the invalidation listener are not explored: delivery happens between operations",
+        "thread interleavings of the invalidation listener are not explored: delivery happens between operations; all but the first "
+        "%d paths per configuration run with an inert stand-in for the listener thread" % THREADED_PATHS,
     ]
     return v.finish()
 
 
 class Sink:
     """Observations go straight to ndjson part files (a thorough run has millions of operations): a whole
-    case per line, parts balanced by the number of operations; each part is judged by one TLC process."""
+    case per line; each part is judged by one TLC process."""
 
-    def __init__(self, workdir, tag, parts=16):
+    def __init__(self, workdir, tag, parts=4, base=0):
         os.makedirs(workdir, exist_ok=True)
-        self.paths = [os.path.join(workdir, "obs-%s-%d-%02d.ndjson" % (tag, os.getpid(), p)) for p in range(parts)]
+        self.paths = [os.path.join(workdir, "obs-%s-%d-%02d.ndjson" % (tag.replace("/", "_"), os.getpid(), p)) for p in range(parts)]
         self.files = [None] * parts
         self.load = [0] * parts
-        self.n = 0
-        self.nops = 0
+        self.n = base
 
     def add(self, row):
         self.n += 1
         row["id"] = self.n
         w = len(row.get("ops", ())) + 1
-        # fill one part up to 25 000 operations before opening the next (a JVM costs seconds)
-        p = next((i for i in range(len(self.paths)) if 0 < self.load[i] < 25000), None)
+        # fill one part up to 30 000 operations before opening the next (a JVM costs seconds)
+        p = next((i for i in range(len(self.paths)) if 0 < self.load[i] < 30000), None)
         if p is None:
             p = min(range(len(self.paths)), key=lambda i: self.load[i])
         if self.files[p] is None:
@@ -698,44 +736,64 @@ class Sink:
         self.files[p].write(json.dumps(row, separators=(",", ":")))
         self.files[p].write("\n")
         self.load[p] += w
-        self.nops += w
         return self.n
 
-    def judge(self, timeout=2400):
-        """-> (failures without the pseudo clause "drift", stats).  "drift" (the real client's invalidations in
-        flight differ from the model's) is counted, never reported: which keys a client asks the server to watch
-        is not part of the property."""
+    def close(self):
         used = []
         for f, p in zip(self.files, self.paths):
             if f is not None:
                 f.close()
                 used.append(p)
-        known = tlc.merged_known()
+        return used
 
-        def one(path):
-            r = tlc.run_tlc("JudgeC20.tla", "Judge.cfg", env={"OBS_FILE": path, "KNOWN_FINDINGS": known}, workers=1, timeout=timeout)
-            vd = tlc.parse_verdict(r["out"])
-            if vd is None or "No error has been found" not in r["out"]:
-                raise tlc.TLCError("TLC judge JudgeC20 failed on %s (rc=%s):\n%s" % (path, r["rc"], r["out"][-3000:]))
-            return vd, r
-        fails, states, cpu = [], 0, 0.0
-        t0 = time.time()
-        try:
-            with ThreadPoolExecutor(max_workers=16) as ex:
-                for vd, r in ex.map(one, used):
-                    fails.extend(vd["failures"])
-                    states += r["distinct"]
-                    cpu += r["wall"]
-        finally:
-            for p in used:
-                try:
-                    os.remove(p)
-                except OSError:
-                    pass
-        stats = {"states": states, "transitions": max(states - len(used), 0), "judged": self.n,
-                 "tlc_wall_s": round(time.time() - t0, 2), "tlc_cpu_s": round(cpu, 2),
-                 "drift_ids": sorted(f["id"] for f in fails if f["clause"] == "drift")}
-        return [f for f in fails if f["clause"] != "drift"], stats
+
+def judge_files(files, keep_failing=False, timeout=2400):
+    """One TLC process per part file.  -> (failures without the pseudo clause "drift", stats).  "drift" (the real
+    client's invalidations in flight differ from the model's) is counted, never reported: which keys a client asks
+    the server to watch is not part of the property.  With keep_failing, every failure of a path carries its
+    observation row (read back from the part file before it is deleted)."""
+    known = tlc.merged_known()
+
+    def one(path):
+        r = tlc.run_tlc("JudgeC20.tla", "Judge.cfg", env={"OBS_FILE": path, "KNOWN_FINDINGS": known}, workers=1, timeout=timeout)
+        vd = tlc.parse_verdict(r["out"])
+        if vd is None or "No error has been found" not in r["out"]:
+            raise tlc.TLCError("TLC judge JudgeC20 failed on %s (rc=%s):\n%s" % (path, r["rc"], r["out"][-3000:]))
+        fs = vd["failures"]
+        want = {f["id"] for f in fs if f["clause"] != "drift" and not f["kf"]}
+        if keep_failing and want:
+            want = set(sorted(want)[:40])
+            rows = {}
+            with open(path) as fh:
+                for line in fh:
+                    row = json.loads(line)
+                    if row["id"] in want:
+                        rows[row["id"]] = row
+            for f in fs:
+                if f["id"] in rows and rows[f["id"]].get("type") == "path":
+                    f["row"] = rows[f["id"]]
+        return fs, r
+    fails, states, cpu = [], 0, 0.0
+    t0 = time.time()
+    try:
+        with ThreadPoolExecutor(max_workers=16) as ex:
+            for fs, r in ex.map(one, files):
+                fails.extend(fs)
+                states += r["distinct"]
+                cpu += r["wall"]
+    finally:
+        for p in files:
+            try:
+                os.remove(p)
+            except OSError:
+                pass
+    stats = {"states": states, "transitions": max(states - len(files), 0),
+             "tlc_wall_s": round(time.time() - t0, 2), "tlc_cpu_s": round(cpu, 2),
+             "drift_ids": sorted(f["id"] for f in fails if f["clause"] == "drift"),
+             "drift_first": [f for f in fails if f["clause"] == "drift"][:5]}
+    fails = [f for f in fails if f["clause"] != "drift"]
+    # failures of paths whose row was not kept (beyond the first 40 per part) still count
+    return fails, stats
 
 
 if __name__ == "__main__":
